@@ -59,6 +59,15 @@ class Gen(object):
             return None
         if x < 0.10:
             return self.ch(["abc", "999", "0", "-1", "1x"])
+        if x < 0.10 + self.profile.get("exotic_uid", 0.03) and (self.live or self.dead):
+            # another SPELLING of an identifier: what SQLite's numeric affinity reads as the same integer, what only
+            # other grammars (Python int(), Unicode digits) read as one, and texts with unusual white space
+            u = self.ch(list(self.live) or self.dead) if self.p(0.75) or not self.dead else self.ch(self.dead)
+            fw = "".join(chr(0xFF10 + int(c)) if c.isdigit() else c for c in u)
+            ar = "".join(chr(0x0660 + int(c)) if c.isdigit() else c for c in u)
+            return self.ch(["0" + u, " " + u, u + " ", "+" + u, u + ".0", u + "e0", "\t" + u, u + "\n", "  " + u + "  ",
+                            "0_" + u, u[0] + "_" + u[1:] if len(u) > 1 else "0_" + u, fw, ar, u + "\u00a0", "0x" + u,
+                            u + "  x", "key  one", "key one ", "key\u00a0one", " "])
         if x < 0.16 and self.dead:
             return self.ch(self.dead)
         if self.live and x < 0.95:
@@ -102,8 +111,10 @@ class Gen(object):
                 self.live[d["pub"]] = {"otype": 3, "owner": user, "state": 1}
                 self.live[d["priv"]] = {"otype": 4, "owner": user, "state": 1}
             elif op == "destroy":
-                self.live.pop(d.get("uid"), None)
-                self.dead.append(d.get("uid"))
+                import uidcanon
+                u = uidcanon.canon(d.get("uid"))            # the server echoes the request's spelling
+                self.live.pop(u, None)
+                self.dead.append(u)
             elif op == "activate" and d.get("uid") in self.live:
                 self.live[d["uid"]]["state"] = 2
             elif op == "revoke" and d.get("uid") in self.live:
@@ -363,6 +374,9 @@ class Gen(object):
             it.update(uid=self.uid())
         elif op == "revoke":
             it.update(uid=self.uid(want=lambda o: o["state"] == 2), code=self.ch([1, 2, 2, 3, 6, 5]))
+            if self.profile.get("revoke_date") and self.p(self.profile["revoke_date"]):
+                # the optional Compromise Occurrence Date (the server reads nothing from it): past, present, far future
+                it["cdate"] = self.ch([0, 1000, self.now - 5, self.now, self.now + 10 ** 6, 2 ** 40, 2 ** 62])
         elif op == "query":
             it.update(functions=r.sample([1, 2, 3, 4, 5, 6], self.ch([0, 1, 2, 3])))
         elif op == "discoverVersions":
